@@ -76,14 +76,14 @@ inline std::string qKinds(const std::string& t, bool euler) {
     if (t == "Universal") return "aa";     if (t == "Cylinder") return "ac";
     if (t == "BendStretch") return "ac";   if (t == "Planar") return "acc";
     if (t == "Gimbal") return "aaa";       if (t == "Bushing") return "aaaccc";
-    if (t == "Ball") return euler ? "aaa" : "qqqq";
-    if (t == "Free") return euler ? "aaaccc" : "qqqqccc";
-    if (t == "LineOrientation") return euler ? "aaa" : "qqqq";
-    if (t == "FreeLine") return euler ? "aaaccc" : "qqqqccc";
+    if (t == "Ball") return euler ? "aaax" : "qqqq";
+    if (t == "Free") return euler ? "aaaxccc" : "qqqqccc";
+    if (t == "LineOrientation") return euler ? "aaax" : "qqqq";
+    if (t == "FreeLine") return euler ? "aaaxccc" : "qqqqccc";
     if (t == "Translation") return "ccc";  if (t == "Screw") return "a";
     if (t == "SphericalCoords") return "aac";
-    if (t == "Ellipsoid") return euler ? "aaa" : "qqqq";
-    if (t == "CantileverFreeBeam") return euler ? "aaa" : "qqqq";
+    if (t == "Ellipsoid") return euler ? "aaax" : "qqqq";
+    if (t == "CantileverFreeBeam") return "aaa";
     if (t == "Weld") return "";
     fprintf(stderr, "unknown mobilizer %s\n", t.c_str()); exit(2);
 }
@@ -101,10 +101,10 @@ struct Model {
 
 inline MassProperties symMassProps(const std::string& n, int k) {
     Real m = in(n + "_m", 1.0 + 0.25 * k, "pos");
-    Vec3 com = inV3(n + "_com", Vec3(0.125 + 0.0625 * k, -0.25, 0.1875));
+    Vec3 com = inV3(n + "_com", Vec3(0.125 * k, -0.25, 0.1875));
     // central unit inertia: gyration entries of a slightly skewed brick (valid for +-40% perturbations)
     Real gxx = in(n + "_gxx", 0.5, "pos"), gyy = in(n + "_gyy", 0.625, "pos"), gzz = in(n + "_gzz", 0.75, "pos");
-    Real gxy = in(n + "_gxy", 0.03125, "param"), gxz = in(n + "_gxz", -0.0625, "param"), gyz = in(n + "_gyz", 0.015625, "param");
+    Real gxy = in(n + "_gxy", 0.0625, "param"), gxz = in(n + "_gxz", -0.0625, "param"), gyz = in(n + "_gyz", 0.0625, "param");
     Inertia Ic(m * gxx, m * gyy, m * gzz, m * gxy, m * gxz, m * gyz);
     Inertia Io = Ic.shiftFromMassCenter(com, m);
     return MassProperties(m, com, Io);
@@ -163,6 +163,7 @@ inline State initState(Model& M, bool symbolicU = true) {
     for (int i = 0; i < nq; ++i) {
         char kd = M.qkinds[i];
         if (kd == 'a') s.updQ()[i] = in(S("q", i), qa[i % 8], "angle");
+        else if (kd == 'x') continue;
         else if (kd == 'c') s.updQ()[i] = in(S("q", i), 0.25 + 0.125 * (i % 5), "coord");
         else { s.updQ()[i] = in(S("q", i), qq[nquat % 4], "quat"); ++nquat; }
     }
